@@ -543,11 +543,15 @@ def run(ctx):
     ctx.attempt(r175, ctx)
     ctx.rule("R-17.7", "shutdown order: the stop event is set only after the queue was seen empty, then the tasks are awaited (every submitted unit is executed)", floor=2)
     ctx.attempt(r177, ctx)
+    ctx.rule("R-17.8", "every consumed result is committed: each normal path through treat_output writes restart.toml, so the persisted step counter never lags the steps whose rows were appended (shared with C06 R-6.14 / C08 R-8.11)", floor=1)
+    from .shared import commit_every_step
+    ctx.attempt(commit_every_step, ctx, "R-17.8", " (the step counter on disk lags the data file: the restarted run performs more than the target number of steps in total)")
     from .shared import commit_refreshes_state
     ctx.attempt(commit_refreshes_state, ctx, "R-17.6", " - e.g. the in-flight record of a finished run still lists the last completed move, which a restart re-issues")
 
 
 VARIANTS = [
+    B("c17-commit-only-when-printing", REPEX, "            self.print_shooted(md_items, pn_news)\n        # save for possible restart\n        self.write_toml()", "            self.print_shooted(md_items, pn_news)\n            # save for possible restart\n            self.write_toml()", "R-17.8", control=True, why="seeded C17_i"),
     B("c17-stop-event-before-drain", ASYNC, "        while self._queue.qsize() > 0:\n            time.sleep(0.1)\n\n        # Stop ongoing tasks\n        self._stop_event.set()\n", "        # Stop ongoing tasks\n        self._stop_event.set()\n        while self._queue.qsize() > 0:\n            time.sleep(0.1)\n", "R-17.7", control=True, why="seeded C17_g"),
     K("c17-keep-drain-test-respelled", ASYNC, "        while self._queue.qsize() > 0:\n            time.sleep(0.1)\n", "        while not self._queue.qsize() == 0:\n            time.sleep(0.1)\n"),
     B("c17-locked-stored-inside-loop", REPEX, '        self.config["current"]["locked"] = locked_ep\n', '            self.config["current"]["locked"] = locked_ep\n', "R-17.6", control=True, why="seeded C17_d"),
